@@ -50,6 +50,7 @@ def run(ctx):
     f1_compaction(ctx)
     d1_dispatch(ctx)
     h1_hard_edges(ctx)
+    h2_hard_edges_typestate(ctx)
     m1_prepare_order(ctx)
     c1_corner_generation(ctx)
 
@@ -432,7 +433,7 @@ def d1_dispatch(ctx):
 
 
 # ---------------------------------------------------------------------------- H1
-def h1_hard_edges(ctx):
+def h1_hard_edges(ctx, RULE="C02-H1"):
     repo = ctx.repo
     fn = repo.func(MD, RMD + "._complete_edges_from_faces")
     site = ctx.site(MD, fn)
@@ -445,7 +446,7 @@ def h1_hard_edges(ctx):
                     and au.const(base.args[0]) == "hard_edges":
                 stores.append(st)
     if not stores:
-        ctx.fail("C02-H1", site, "declared edges are no longer flagged in the 'hard_edges' attribute", "")
+        ctx.fail(RULE, site, "declared edges are no longer flagged in the 'hard_edges' attribute", "")
         return
     init = repo.func(MD, RMD + ".__init__")
     inherits = any(isinstance(st, (ast.Assign, ast.AnnAssign)) and au.is_self_attr(au.assign_targets(st)[0], "_prepared")
@@ -459,7 +460,7 @@ def h1_hard_edges(ctx):
                     (isinstance(t, ast.UnaryOp) and pol) or (isinstance(t, ast.Compare) and isinstance(t.ops[0], ast.NotIn) and pol)
                     or (isinstance(t, ast.Call) and not pol) or (isinstance(t, ast.Compare) and isinstance(t.ops[0], ast.In) and not pol)):
                 guarded = True
-        ctx.check(guarded or inherits, "C02-H1", ctx.site(MD, fn, st),
+        ctx.check(guarded or inherits, RULE, ctx.site(MD, fn, st),
                   "every current edge is flagged hard each time prepare() runs, also on data wrapped from an already built mesh",
                   "RawMeshData(mesh) starts unprepared and shares the mesh's containers: re-preparing (every editing block of "
                   "subdivision.py does) marks the edges generated from faces as hard edges; only edges the caller declared may be "
@@ -471,9 +472,84 @@ def h1_hard_edges(ctx):
     first_app = [c for c in au.calls(fn) if au.call_tail(c) == "append" and au.is_self_attr(c.func.value, "edges")]
     ok = bool(loops) and au.src(loops[0].iter) in ("self.id_edges", "range(len(self.edges))") and first_app \
         and loops[0].lineno < first_app[0].lineno
-    ctx.check(ok, "C02-H1", site, "hard-edge flagging does not range over exactly the edges present before completion",
+    ctx.check(ok, RULE, site, "hard-edge flagging does not range over exactly the edges present before completion",
               "edges generated from faces must not be flagged")
 
+
+
+
+def _hard_attr_test(t):
+    """(is_test_on_hard_edges_attribute, polarity_meaning_exists) for has_attribute('hard_edges') / 'hard_edges' in X.attributes"""
+    if isinstance(t, ast.Call) and au.call_tail(t) == "has_attribute" and t.args and au.const(t.args[0]) == "hard_edges":
+        return True
+    if isinstance(t, ast.Compare) and len(t.ops) == 1 and isinstance(t.ops[0], ast.In) and au.const(t.left) == "hard_edges":
+        return True
+    return False
+
+
+def h2_hard_edges_typestate(ctx, RULE="C02-H1"):
+    """(a) after _complete_edges_from_faces ran past its `faces.empty()` exit the 'hard_edges' attribute exists on every path,
+    so that a later re-preparation can recognise prepared data; (b) the completion of missing edges is reachable when the
+    attribute already exists (re-preparing an edited mesh must still add the new edges)."""
+    from ..flow import Flow, TOP
+    fn = ctx.repo.func(MD, RMD + "._complete_edges_from_faces")
+    site = ctx.site(MD, fn)
+
+    def refine(state, e, branch):
+        if state is TOP:
+            return state
+        if isinstance(e, ast.UnaryOp) and isinstance(e.op, ast.Not):
+            return refine(state, e.operand, not branch)
+        if isinstance(e, ast.BoolOp):
+            if isinstance(e.op, ast.And) and branch or isinstance(e.op, ast.Or) and not branch:
+                for v in e.values:
+                    state = refine(state, v, branch)
+            return state
+        if isinstance(e, ast.Compare) and len(e.ops) == 1 and isinstance(e.ops[0], ast.NotIn) and au.const(e.left) == "hard_edges":
+            return refine(state, ast.Compare(left=e.left, ops=[ast.In()], comparators=e.comparators), not branch)
+        if _hard_attr_test(e):
+            if branch:
+                return TOP if "absent" in state else state | {"exists"}
+            return TOP if "exists" in state else state | {"absent"}
+        return state
+    visited = {}
+
+    def stmt(state, st):
+        if state is TOP:
+            return state
+        if not hasattr(st, "loop"):
+            for c in au.calls(st):
+                if au.call_tail(c) == "create_attribute" and c.args and au.const(c.args[0]) == "hard_edges":
+                    state = (state - {"absent"}) | {"exists"}
+                if au.call_tail(c) == "append" and au.is_self_attr(c.func.value, "edges"):
+                    visited.setdefault("append", []).append(state)
+        return state
+    # (a) from an unknown state
+    fl = Flow(stmt, lambda s_, e: s_, refine)
+    fl.run(fn.body, frozenset())
+    bad_exits = []
+    for kind, node, st_ in fl.exits:
+        if kind == "raise" or st_ is TOP:
+            continue
+        early = node is not None and any(isinstance(t, ast.Call) and au.call_tail(t) == "empty" and au.is_self_attr(t.func.value, "faces")
+                                         for t, pol in au.guards(node, stop=fn) if pol)
+        if not early and "exists" not in st_:
+            bad_exits.append(node.lineno if node is not None else "end")
+    ctx.check(not bad_exits, RULE, site,
+              "_complete_edges_from_faces can finish without the 'hard_edges' attribute existing",
+              "the attribute is what marks data as already prepared: if a first preparation can leave it absent (e.g. when no edge was "
+              "declared), the next preparation of the built mesh flags every edge generated from faces as a hard edge",
+              note="hard_edges exists on every normal exit")
+    # (b) with the attribute present, the completion append must still be reachable
+    visited.clear()
+    fl2 = Flow(stmt, lambda s_, e: s_, refine)
+    fl2.run(fn.body, frozenset({"exists"}))
+    reach = [s_ for s_ in visited.get("append", []) if s_ is not TOP]
+    ctx.check(bool(reach), RULE, site,
+              "edges of faces are no longer completed when the 'hard_edges' attribute already exists",
+              "re-preparing a mesh that was edited in place (triangulated quads, fan splits) must still add the new sides as edges; "
+              "otherwise faces have sides that are not edges",
+              note="edge completion independent of the hard_edges attribute")
 
 # ---------------------------------------------------------------------------- M1
 def m1_prepare_order(ctx):
